@@ -23,7 +23,7 @@ ASSUMPTIONS = ['python dict semantics (insertion order; d[k]=v overwrites in pla
                'aliasing of leaf objects between operands and result is not modelled (only dict nodes are snapshotted deeply)',
                'tree_to_table / table_to_tree: modelled and sampled (ops totable / totree); the inverse law is an implementation-level law, not a Lean theorem; dictable(tree, pattern) not modelled']
 
-KEYS = ['a', 'b', 'c', 'd', 'e']
+KEYS = ['a', 'b', 'c', 'd', 'a.b', 'b.a']      # dotted keys are ordinary string keys (dictattr's dotted-path fallback must not be triggered by them)
 LEAVES = [None, 0, 1, 2, 'x', 'y', [1, 2], [], 'a']
 
 
